@@ -7,8 +7,10 @@
 package c14
 
 import (
+	"context"
 	"fmt"
 	"math/rand/v2"
+	"net/http/httptest"
 	"path/filepath"
 	"runtime"
 	"sort"
@@ -20,7 +22,9 @@ import (
 
 	"github.com/anishathalye/porcupine"
 	"github.com/tailscale/setec/audit"
+	"github.com/tailscale/setec/client/setec"
 	"github.com/tailscale/setec/db"
+	"github.com/tailscale/setec/types/api"
 
 	"verif/harness/internal/evid"
 	"verif/harness/internal/httpdrv"
@@ -174,7 +178,7 @@ func TestC14(t *testing.T) {
 	}
 	close(jobs)
 	wg.Wait()
-	r.Require("histories_db", "histories_http", "histories_linearizable", "overlapping_histories", "list_overlapping_two_puts", "same_value_puts_overlapping")
+	r.Require("histories_db", "histories_http", "histories_linearizable", "overlapping_histories", "list_overlapping_two_puts", "same_value_puts_overlapping", "histories_over_loopback_sockets")
 	r.Rule("three history shapes: 'global-with-list' (4 clients x 5 ops: list/put/activate/get/delete on the first and last of 32 names, checked unpartitioned), 'per-key' (7 clients x 7 ops of all kinds on 3 names, partitioned by name), 'same-value-burst' (8 spin-synchronised clients putting the same value); audit sink injects yields/microsecond sleeps; DB API and HTTP handlers. Every history + a final sequential state read is decided by porcupine. Distinct = (shape, level, hash of the observed overlap pattern)")
 }
 
@@ -220,6 +224,19 @@ func oneHistory(t *testing.T, r *evid.Run, dir string, idx int, sh shape, level 
 				res.Class = refmodel.Other
 			}
 			return res
+		}
+		if idx%5 == 0 {
+			// every fifth HTTP history goes over real loopback sockets through the real setec.Client
+			srvAny, err := httpdrv.NewAnyAddr(d, httpdrv.Who{Login: "c14@verif", Node: "c14", Rules: []refmodel.Rule{{Actions: []string{"get", "info", "put", "activate", "delete"}, Patterns: []string{"*"}}}})
+			if err != nil {
+				t.Error(err)
+				return
+			}
+			hs := httptest.NewServer(srvAny.Mux)
+			defer hs.Close()
+			cl := setec.Client{Server: hs.URL, DoHTTP: hs.Client().Do}
+			do = func(op ops.Op) ops.Result { return viaClient(cl, op) }
+			r.Count("histories_over_loopback_sockets", 1)
 		}
 	}
 	// pre-generate each client's operations (version arguments drawn against the initial state + guesses)
@@ -339,3 +356,47 @@ func oneHistory(t *testing.T, r *evid.Run, dir string, idx int, sh shape, level 
 }
 
 var _ = rand.IntN
+
+// viaClient performs op through the real client library.
+func viaClient(cl setec.Client, op ops.Op) ops.Result {
+	ctx := context.Background()
+	val := func(sv *api.SecretValue, err error) ops.Result {
+		r := ops.Result{Class: realdb.Classify(err)}
+		if sv != nil && err == nil {
+			r.Version, r.Bytes, r.HasVal = uint32(sv.Version), string(sv.Value), true
+		}
+		return r
+	}
+	switch op.Kind {
+	case ops.List:
+		l, err := cl.List(ctx)
+		r := ops.Result{Class: realdb.Classify(err)}
+		if err == nil {
+			r.Meta = realdb.ListString(l)
+		}
+		return r
+	case ops.Info:
+		in, err := cl.Info(ctx, op.Name)
+		r := ops.Result{Class: realdb.Classify(err)}
+		if err == nil {
+			r.Meta = realdb.InfoString(in)
+		}
+		return r
+	case ops.Get:
+		return val(cl.Get(ctx, op.Name))
+	case ops.GetVer:
+		return val(cl.GetVersion(ctx, op.Name, api.SecretVersion(op.Version)))
+	case ops.GetCond:
+		return val(cl.GetIfChanged(ctx, op.Name, api.SecretVersion(op.Version)))
+	case ops.Put:
+		v, err := cl.Put(ctx, op.Name, op.Value)
+		return ops.Result{Class: realdb.Classify(err), Version: uint32(v)}
+	case ops.Act:
+		return ops.Result{Class: realdb.Classify(cl.Activate(ctx, op.Name, api.SecretVersion(op.Version)))}
+	case ops.DelVer:
+		return ops.Result{Class: realdb.Classify(cl.DeleteVersion(ctx, op.Name, api.SecretVersion(op.Version)))}
+	case ops.Delete:
+		return ops.Result{Class: realdb.Classify(cl.Delete(ctx, op.Name))}
+	}
+	panic("bad op")
+}
